@@ -3,11 +3,11 @@ import Compute.Props.C01Solve
 /-
 C03 — multivariate normal: what `MVN::new` guarantees about the object `MVN::sample` reads (review finding B3).
 
-`mvn_sample_spec` (Props/C03.lean) is about an arbitrary record `d` with a well-formed `dim × dim` factor.  Here the record
+`mvn_sample_spec_partial` (Props/C03.lean) is about an arbitrary record `d` with a well-formed `dim × dim` factor.  Here the record
 is the one `MVN.new mean cov` builds: the mean is stored unchanged, its length is the order of `cov`, the cached factor `L` is
 `dim × dim`, well formed, and — by C01's `cholesky_correct_real` — `L·Lᵀ = cov` in exact arithmetic whenever `cov` is exactly
 symmetric (`MVN::new` itself only asserts symmetry up to `ε = 2⁻⁵²`; on the lower triangle the identity holds without that
-hypothesis).  Together with `mvn_sample_spec`: a returned draw is `μ + L z` with `L Lᵀ = Σ`, `z` the `dim` normal draws.
+hypothesis).  Together with `mvn_sample_spec_partial`: a returned draw is `μ + L z` with `L Lᵀ = Σ`, `z` the `dim` normal draws.
 NOT proved: that `z` is standard normal (the Ziggurat law) — hence not that the draw has covariance `Σ` in distribution.
 -/
 set_option linter.unusedSectionVars false
@@ -68,5 +68,39 @@ theorem mvn_new_spec (mean : List ℝ) (cov : Mat ℝ) (hwf : cov.WF) (d : MVN.D
               rw [hsq]; exact h1
     · simp [hsym, hlen] at h
   · simp [hsym] at h
+
+set_option maxRecDepth 8000 in
+/-- Non-vacuity of `mvn_new_spec`: over ℝ, `MVN.new` returns on the 1 × 1 covariance `[4]` with mean `[1]` (the factor is `[2]`;
+the cached inverse and determinant are computed as well). -/
+theorem mvn_new_witness : ∃ d, MVN.new [1] (⟨[4], 1, 1⟩ : Mat ℝ) = some d := by
+  have hs : Real.sqrt 4 = 2 := by
+    rw [show (4 : ℝ) = 2 ^ 2 by norm_num]; exact Real.sqrt_sq (by norm_num)
+  have hc : LA.M.cholesky (⟨[4], 1, 1⟩ : Mat ℝ) = some ⟨[2], 1, 1⟩ := by
+    simp [LA.M.cholesky, LA.M.isPositiveDefinite, LA.M.isSymmetric, LA.cholesky, LA.tryCholesky, LA.isSymmetric, LA.isSquare,
+      LA.cholLoops, LA.cholRow, LA.cholCell, LA.M.new, LA.rd, LA.eps, LA.isNan, dot8, dot8Go, Transc.sqrt, Transc.abs, hs,
+      List.range, List.range.loop, List.foldlM]
+    norm_num
+  have hi : ∃ m, LA.M.inv (⟨[4], 1, 1⟩ : Mat ℝ) = some m := by
+    simp [LA.M.inv, LA.M.solveM, LA.M.lu, LA.M.luStep, LA.M.luColumn, LA.M.luSolveM, LA.M.solveColsM, LA.M.colsM, LA.M.luSolveV,
+      LA.M.getCol, LA.M.eye, LA.M.new, LA.M.t, LA.luDot, LA.luPivot, LA.swapRows, LA.luScale, LA.luFwd, LA.luBwd, LA.luPermute,
+      LA.swapIdx, LA.rd, LA.isSquare, LA.isMatrix, LA.transpose, LA.M.g, dot8, dot8Go, Transc.abs,
+      List.range, List.range.loop, List.foldlM]
+  have hd : ∃ x, LA.M.det (⟨[4], 1, 1⟩ : Mat ℝ) = some x := by
+    simp [LA.M.det, LA.M.lu, LA.M.luStep, LA.M.luColumn, LA.M.diag, LA.M.prod, LA.M.parityScalar, ipivParity, parityLoop, parityWhile,
+      LA.luDot, LA.luPivot, LA.swapRows, LA.luScale, LA.swapIdx, LA.rd, LA.isSquare, LA.isMatrix, LA.M.g, dot8, dot8Go, Transc.abs,
+      List.range, List.range.loop, List.foldlM]
+  obtain ⟨m, hi⟩ := hi
+  obtain ⟨x, hd⟩ := hd
+  refine ⟨⟨[1], ⟨[2], 1, 1⟩⟩, ?_⟩
+  have hsym : LA.M.isSymmetric (⟨[4], 1, 1⟩ : Mat ℝ) = true := by
+    simp [LA.M.isSymmetric, LA.rd, LA.eps, Transc.abs, List.range, List.range.loop, List.range']
+  simp [MVN.new, hsym, hc, hi, hd]
+
+
+/-- … and `mvn_new_spec` applies to it: the stored factor squares back to the covariance. -/
+example : ∃ d, MVN.new [1] (⟨[4], 1, 1⟩ : Mat ℝ) = some d ∧ d.chol.WF ∧ d.chol.nrows = 1 := by
+  obtain ⟨d, hd⟩ := mvn_new_witness
+  obtain ⟨_, _, _, h4, _, h6, _⟩ := mvn_new_spec [1] ⟨[4], 1, 1⟩ (by simp [Mat.WF]) d hd
+  exact ⟨d, hd, h6, h4⟩
 
 end Cv.C03Mvn
